@@ -94,7 +94,8 @@ Definition nontrivial_case (inp : list Z) : bool :=
 
 (* known-finding shapes: 1 = the memory amount (node: clause 4/34, zone: clause 24) exceeds the
    property-text bound although every implemented clause holds, under memoryCalculatePolicy =
-   "request" with system usage above the node reservation *)
+   "request" with system usage above the node reservation, and the implementation's observable
+   equals the model's (run_case inp = obs) so that no other deviation hides behind the shape *)
 Definition request_sys_shape (b : binput) : bool :=
   (eff_policy_mem (s_mem_policy (b_s b)) =? 2) && (reserved_mem b <? sys_mem b).
 Definition finding_sig (inp obs : list Z) : Z :=
@@ -103,7 +104,9 @@ Definition finding_sig (inp obs : list Z) : Z :=
   let oa := firstn (obs_len obs) obs in
   let c := prop_case inp obs in
   let failing := if negb (batch_code true a oa =? 0) then a else b in
-  if ((c =? 4) || (c =? 24) || (c =? 34)) && request_sys_shape failing then 1 else 0.
+  (* a known finding only when the implementation's WHOLE observable is the faithful model's *)
+  if ((c =? 4) || (c =? 24) || (c =? 34)) && request_sys_shape failing
+     && eq_listZ (run_case inp) obs then 1 else 0.
 
 Require Extraction.
 Require Import ExtrOcamlBasic.
